@@ -129,6 +129,24 @@ def run_conv_dense(case, seed, R):
         R.expect_close(got, want, tola, sg, f'conv(a, delta{(pi, pj)}) must be a translated by {(pi - o[0], pj - o[1])}')
         got = R.call(convolution.conv, delta(shape, p), a.copy())
         R.expect_close(got, want, tola, sg, f'conv(delta{(pi, pj)}, a) must be a translated by {(pi - o[0], pj - o[1])}')
+    # structured operands (data-dependent shortcuts: "the PSF is symmetric, so its transfer function is real", "the object is binary",
+    # "the kernel is separable"): every mirror pair delta_p + delta_flip(p) (symmetric under the 180-degree flip of the ARRAY, which is a
+    # symmetry about (N-1)/2, not about the origin sample N//2), boxes, the all-ones array, a flip-symmetric ramp, each in both orders
+    structured = []
+    for p in range(N):
+        h = delta(shape, p) + delta(shape, N - 1 - p)
+        structured.append((f'mirror-pair{divmod(p, n1)}', h))
+    box = np.zeros(shape)
+    box[max(o[0] - 1, 0):o[0] + 1, max(o[1] - 1, 0):o[1] + 1] = 1.0
+    ii, jj = np.indices(shape)
+    sym = 1.0 + np.minimum(ii, n0 - 1 - ii) + 2.0 * np.minimum(jj, n1 - 1 - jj)
+    structured += [('box', box), ('ones', np.ones(shape)), ('flip-symmetric', sym), ('outer', np.outer(np.arange(1, n0 + 1.0), np.arange(1, n1 + 1.0)))]
+    for label, h in structured:
+        tolh = 200 * EPS * n2(a) * max(n2(h), 1.0)
+        got = R.call(convolution.conv, a.copy(), h.copy(), hygiene=False)
+        R.expect_close(got, ref_conv(a, h), tolh, f'conv:structured-psf:{s}', f'conv(a, {label}) vs brute-force cyclic sum, {shape}')
+        got = R.call(convolution.conv, h.copy(), a.copy(), hygiene=False)
+        R.expect_close(got, ref_conv(h, a), tolh, f'conv:structured-object:{s}', f'conv({label}, a) vs brute-force cyclic sum, {shape}')
     # total energies multiply
     if ab is not FAILED and np.asarray(ab).shape == shape:
         R.expect_close(np.asarray(ab).sum(), a.sum() * b.sum(), 200 * EPS * np.abs(a).sum() * np.abs(b).sum(),
